@@ -1,13 +1,13 @@
-\* the proposed repair of finding C01/nil-dict in the model: a nil Dict is written "null";
-\* token kinds include nildict
+\* negative control: the formatter as it was before the repair of the nil Dict case
+\* (types.go wrote "<<>>" for pdf.Dict(nil)); RoundTrip must fail
 SPECIFICATION Spec
 CONSTANTS
   Mutation = "none"
-  NilDictIsNull = TRUE
+  NilDictIsNull = FALSE
   StrAlphabet = {40, 41, 92, 13, 10, 97, 0, 128}
   NameAlphabet = {35, 47, 32, 97, 49, 40, 0, 127, 128}
-  MaxStr = 2
-  MaxName = 2
+  MaxStr = 1
+  MaxName = 1
   TokKinds = {"null", "true", "false", "int", "negint", "real", "name", "namedig", "str", "hexstr", "arr", "dict", "ref", "nilarr", "nildict"}
   MaxToks = 3
   OptSets = {{}, {"Pretty"}, {"ContentStream"}, {"Pretty", "ContentStream", "DictTypes", "TextStringUtf8", "TrimStandardFonts"}}
